@@ -16,6 +16,8 @@ def make_table(rng, nmodels=None):
     if rng.random() < 0.5:
         model_ids.sort()
     chains = rng.sample(["A", "B", "C"], rng.randint(1, 2))
+    # a third of the tables have every atom fully occupied (no alternate locations; injected clashes are between full atoms)
+    all_full = rng.random() < 0.34
     skeleton = []
     for ch in chains:
         num = rng.choice([-3, 1, 1, 98, 996])
@@ -44,7 +46,7 @@ def make_table(rng, nmodels=None):
                 r = dict(model=m, chain=ch, resnum=num, icode=icode, resname=resname, name=nm, x=x, y=y, z=z, occ=1.0, altloc=None,
                          element=nm[0], het=het, bfac=round(rng.uniform(0, 80), 2), kind="plain")
                 u = rng.random()
-                if u < 0.10:  # alternate location: second copy of the same name, different occupancy
+                if u < 0.10 and not all_full:  # alternate location: second copy of the same name, different occupancy
                     o1 = rng.choice([0.6, 0.7, 0.35, 0.5])
                     r.update(occ=o1, altloc="A", kind="alt")
                     r2 = dict(r, x=round(x + 0.9, 3), occ=round(1 - o1, 2), altloc="B")
@@ -54,8 +56,8 @@ def make_table(rng, nmodels=None):
                     recs += [r, r2]
                     continue
                 recs.append(r)
-                if u > 0.93 and not het:  # a different atom closer than 0.5 A
-                    o2 = rng.choice([0.3, 0.5, 1.0, 0.0])
+                if u > (0.85 if all_full else 0.93) and not het:  # a different atom closer than 0.5 A
+                    o2 = 1.0 if all_full else rng.choice([0.3, 0.5, 1.0, 0.0])
                     nm2 = rng.choice([n for n in NT_ATOMS if n not in names] or ["C7"])
                     if all(q["name"] != nm2 for q in recs if (q["model"], q["chain"], q["resnum"], q["icode"]) == (m, ch, num, icode)):
                         recs.append(dict(r, name=nm2, element=nm2[0], x=round(x + 0.2, 3), y=round(y + 0.1, 3), occ=o2, kind="clash"))
